@@ -485,7 +485,30 @@ impl RoomAuthorisations {
             }
         }
 
-        for node in &mut deletion_query.updated_nodes {
+        for (i, node) in deletion_query.updated_nodes.iter_mut().enumerate() {
+            //the source node of a deleted edge is modified and signed again: the user needs the right to mutate it
+            if let Some(room_id) = &node.room_id {
+                let name = match deletion_query.updated_nodes_name.get(i) {
+                    Some(name) => name,
+                    None => return Err(Error::UnknownRoom(base64_encode(room_id))),
+                };
+                match self.rooms.get(room_id) {
+                    Some(room) => {
+                        let right = if node.verifying_key.eq(&verifying_key) {
+                            RightType::MutateSelf
+                        } else {
+                            RightType::MutateAll
+                        };
+                        if !room.can(&verifying_key, name, now, &right) {
+                            return Err(Error::AuthorisationRejected(
+                                name.clone(),
+                                base64_encode(room_id),
+                            ));
+                        }
+                    }
+                    None => return Err(Error::UnknownRoom(base64_encode(room_id))),
+                }
+            }
             node.sign(&self.signing_key)?;
         }
 
